@@ -702,6 +702,7 @@ def main(tier):
             jobs.append(("C17_defaults", REQ, "Eval vm_compute in defaults_table.\n"))
             if sweep is not None:
                 jobs.append(sweep.coq_job())
+                jobs.append(sweep.discovery_job())
             outs = lib.coq_eval_many(jobs, workers=8)
             omodel, dmodel = [], []
             k = 0
@@ -713,7 +714,7 @@ def main(tier):
                 k += 1
             defaults = lib.parse_coq_values(outs[k])[0]
             if sweep is not None:
-                kstats = sweep.decide(outs[k + 1])
+                kstats = sweep.decide(outs[k + 1], outs[k + 2])
         except Exception as e:
             ck.broken_ties.append("model evaluation failed: %s" % str(e)[-1200:])
             omodel = dmodel = None
@@ -877,11 +878,15 @@ def main(tier):
                    for (o, fl, kv, st), im in list(zip(ocases, oimpl))[:: max(1, len(ocases) // 5)]][:5] +
                   [{"discovery": c, "echo": im["got"], "argv": im["argv"]} for c, im in list(zip(dcases, dimpl))[:: max(1, len(dcases) // 3)]][:3])
     ck.cov.update({
-        "evaluations": len(ocases) + len(dcases) + 4 * len(init_res) + 1 + kstats.get("key_cases", 0) + 3,
-        "distinct_nontrivial": len(seen) + kstats.get("key_cases", 0),
+        "evaluations": len(ocases) + len(dcases) + 4 * len(init_res) + 1 + kstats.get("key_cases", 0) + kstats.get("explicit_config_cases", 0) + 3,
+        "distinct_nontrivial": len(seen) + kstats.get("key_cases", 0) + kstats.get("explicit_config_cases", 0),
         "rule": "one evaluation = one run of the real pyscn binary (analyze --json / check) on a generated project + config layout; the effective "
                 "value is read from the report's config echo (check: the printed limit) and from the surviving items, and compared with eff / "
-                "spec_resolve and with the Coq model; distinct = distinct (option, flag value, file value, file style) or discovery layout",
+                "spec_resolve and with the Coq model; the keys without a flag are judged under a discovered file and under an explicit --config file "
+                "(alone, against a discovered file with another value, and not mentioning the key while the discovered file does: the explicit "
+                "file is the one in force for every key, observed by the echo, by a refusal, and for [output] format / directory by the extension "
+                "/ place of the report written); distinct = distinct (option, flag value, file value, file style) or discovery layout or "
+                "(key, explicit-file mode, values)",
         "input_distribution": {"option_cases": len(ocases), "options": len(OPTIONS), "cells_flag_x_key": {"%s/%s/%s" % k: v for k, v in sorted(cells.items())},
                                "discovery_cases": len(dcases), "discovery_f24_layouts_not_judged": n_f24,
                                "discovery_cwd_elsewhere": sum(1 for c in dcases if c["cwd"] is not None),
